@@ -253,7 +253,7 @@ def py_int_floordiv(a, b):
     return z3.If(b > 0, (a - m) / b, (a - m) / b)
 
 
-POW = z3.Function('py_pow', z3.RealSort(), z3.RealSort(), z3.RealSort())
+POW = z3.Function('py_pow', z3.RealSort(), z3.RealSort(), z3.RealSort())      # (registered as a UF with axioms in models.POWF)
 
 
 def _const_int(s):
